@@ -290,6 +290,26 @@ PROPS = {
         assumptions=COMMON_ASSUMPTIONS + ["type names equal to 'attr' or starting with 'rel' are not generated for the ID's api tag",
                                           "shapes are limited to what reflect.StructOf can express plus three hand-declared structs"],
     ),
+    "C12": dict(
+        regress="TestC12Regress",
+        race=True,
+        subs=[
+            dict(test="TestC12Sequential", quick=1500, thorough=10000),
+            dict(test="TestC12Concurrent", quick=300, thorough=2500),
+        ],
+        rule="A generated coherent schema with 2-3 soft and StructOf-backed types shared by all operations; operations with their own pre-generated "
+             "inputs: parse a URL (valid or hostile), UnmarshalDocument, UnmarshalPartialResource, GetType(name).New() + Set/Get, marshal an own "
+             "document, HasType, GetType, Check, Rels. Sequential sub-check (shrinkable): every operation alone leaves a deep snapshot of the schema's "
+             "exported state unchanged and gives the same result twice. Concurrent sub-check: 2-16 goroutines, each with its own list of 5-25 "
+             "operations, released by a barrier in a binary built with the Go race detector (halt_on_error); a race report, a concurrent-map fatal "
+             "error, a panic, a result that differs from a sequential run of the same list, or a changed schema is a violation; the case is written to "
+             "c12.case.txt before it starts so that a report can be paired with its history. Non-trivial = >=3 distinct operation kinds of which >=1 is "
+             "a schema query (concurrent: on >=2 goroutines).",
+        assumptions=COMMON_ASSUMPTIONS + [
+            "the harness does not own the goroutine schedule: the race detector flags conflicting unsynchronised accesses that both occur in a run, largely independently of timing, but it is not exhaustive over interleavings",
+            "a race report cannot be shrunk (the process halts); the replay unit is the seed and the logged case",
+        ],
+    ),
 }
 
 LEVEL_NOTE = ("Trusted base: Go toolchain and runtime, encoding/json, reflect, rapid v1.3.0, the harness' own generators and "
@@ -297,6 +317,12 @@ LEVEL_NOTE = ("Trusted base: Go toolchain and runtime, encoding/json, reflect, r
               "violation is not a proof.")
 
 MANIFEST_TEXT = {
+    "C12": dict(
+        technique="property-based generation of concurrent histories (rapid) with the Go race detector and a sequential reference run as oracles; shrinkable sequential non-mutation check",
+        engine="rapid + go-race-detector",
+        level_text="Exploration: generated operation lists run on real goroutines under the race detector; shared writes are also caught deterministically by the sequential snapshot check.",
+        level_note=LEVEL_NOTE,
+    ),
     "C20": dict(
         technique="property-based testing (rapid) over run-time struct shapes (reflect.StructOf) with an independent tag-derivation oracle",
         level_text="Exploration: the quantifier is over programs; the generator covers the tag and type forms listed in the property with reflect.StructOf and exercises every accepted shape through all listed operations, by value and by pointer.",
